@@ -23,6 +23,20 @@ func VerifC11_MTExport() {
 	mtID := k.GetMTs(e.ctx, denomID)[0].GetID()
 	_, err = srv.MintMT(e.ctx, &types.MsgMintMT{Id: mtID, DenomId: denomID, Amount: a2, Sender: owner.String(), Recipient: bob.String()})
 	verifAssume(err == nil)
+	// a second and a third token of the same class, all three held by alice (several balances of one owner in
+	// one class), and a second class with a token of its own
+	for i := 0; i < 2; i++ {
+		_, err = srv.MintMT(e.ctx, &types.MsgMintMT{DenomId: denomID, Amount: uint64(3 + i), Sender: owner.String(), Recipient: alice.String()})
+		verifAssume(err == nil)
+	}
+	_, err = srv.IssueDenom(e.ctx, &types.MsgIssueDenom{Name: "class2", Sender: owner.String()})
+	verifAssume(err == nil)
+	for _, d := range k.GetDenoms(e.ctx) {
+		if d.Id != denomID {
+			_, err = srv.MintMT(e.ctx, &types.MsgMintMT{DenomId: d.Id, Amount: 9, Sender: owner.String(), Recipient: alice.String()})
+			verifAssume(err == nil)
+		}
+	}
 	verifMapOrderSymbolic(true)
 	same := true
 	for try := 0; try < verifTries() && same; try++ {
